@@ -304,31 +304,35 @@ Record sign_args := mkArgs {
   a_nosig : bool; a_digest : bool;
   a_cert : option name; a_key : option name; a_ident : option name; a_locator : option name }.
 
-Definition default_cert_name (k : row) : M name :=
-  mdo c <- readr (fun t => v_default (r_id k) (t_certs t)) ;; ret (r_name c).
+Definition default_cert_name (k : row) (t : tables) : res name :=
+  do c <- v_default (r_id k) (t_certs t) ;; Ok (r_name c).
+
+(* the (key name, certificate name) that sign_args select; only reads *)
+Definition resolve_args (a : sign_args) (t : tables) : res (name * name) :=
+  match a_cert a with
+  | Some cn => Ok (drop2 cn, cn)
+  | None =>
+    match a_key a with
+    | Some kn =>
+        do i <- kc_get (drop2 kn) t ;;
+        do k <- id_get i kn t ;;
+        do cn <- default_cert_name k t ;; Ok (kn, cn)
+    | None =>
+        do i <- (match a_ident a with
+                 | Some idn => kc_get idn t
+                 | None => v_default 0 (t_ids t)
+                 end) ;;
+        do k <- v_default (r_id i) (t_keys t) ;;
+        do cn <- default_cert_name k t ;; Ok (r_name k, cn)
+    end
+  end.
 
 Definition get_signer (a : sign_args) : M rv :=
   if a_nosig a then ret (RSigner SgNone) else
   if a_digest a then ret (RSigner SgDigest) else
-  mdo kc <- (match a_cert a with
-             | Some cn => ret (drop2 cn, cn)
-             | None =>
-               match a_key a with
-               | Some kn =>
-                   mdo i <- readr (kc_get (drop2 kn)) ;;
-                   mdo k <- readr (id_get i kn) ;;
-                   mdo cn <- default_cert_name k ;; ret (kn, cn)
-               | None =>
-                   mdo i <- (match a_ident a with
-                             | Some idn => readr (kc_get idn)
-                             | None => readr (fun t => v_default 0 (t_ids t))
-                             end) ;;
-                   mdo k <- readr (fun t => v_default (r_id i) (t_keys t)) ;;
-                   mdo cn <- default_cert_name k ;; ret (r_name k, cn)
-               end
-             end) ;;
-  let '(kn, cn) := kc in
-  let loc := match a_locator a with Some l => l | None => cn end in
+  mdo kc <- readr (resolve_args a) ;;
+  let kn := fst kc in
+  let loc := match a_locator a with Some l => l | None => snd kc end in
   mdo hit <- getc (fun c => Ok (al_get ckey_eqb (cache c) (kn, loc))) ;;
   match hit with
   | Some g => ret (RSigner g)
